@@ -1204,6 +1204,51 @@ def check_tables(chk, rng, workdir, dirsize):
     return bad_prop, bad_corr
 
 
+def check_two_handles(chk, rng, workdir):
+    """two store objects open on ONE directory at the same time: every set, through either of them, must reach the file —
+    a fresh store opened afterwards reads the latest set of every key (the cache of a handle only says what the file
+    held when that handle read or wrote it)"""
+    from klongpy.core import KLONG_UNDEFINED
+    from klongpy.db.sys_fn_kvs import KeyValueStorage
+    nseq = 40 if chk.tier == "quick" else 400
+    for j in range(nseq):
+        root = os.path.join(workdir, "h%d" % j)
+        os.makedirs(root)
+        handles = {"A": KeyValueStorage(root), "B": KeyValueStorage(root)}
+        d, steps = {}, []
+        try:
+            keys = rng.sample(["k", "m", "e/f", "k.tmp"], 2)
+            vals = ["v1", "v2", [1, 2, 3]]
+            for i in range(rng.randint(3, 7)):
+                h = rng.choice("AB")
+                k = rng.choice(keys)
+                v = rng.choice(vals[:2] if rng.random() < 0.7 else vals)
+                if rng.random() < 0.3:
+                    handles[h].get(k)
+                    steps.append("%s.get(%s)" % (h, k))
+                handles[h].set(k, v)
+                d[k] = v
+                steps.append("%s.set(%s, %r)" % (h, k, v))
+                reader = KeyValueStorage(root)
+                try:
+                    for kk in keys:
+                        chk.count("evaluations")
+                        got = reader.get(kk)
+                        want = d.get(kk, KLONG_UNDEFINED)
+                        if not (got is want or (got is not KLONG_UNDEFINED and want is not KLONG_UNDEFINED and list(got) == list(want) if isinstance(want, list) else got == want)):
+                            return {"kind": "two-handles", "steps": steps, "key": kk,
+                                    "what": "two stores open on one directory: after %s a fresh store reads key %s as %r, latest set was %r" % (
+                                        "; ".join(steps), kk, got, want)}
+                finally:
+                    reader.cache.executor.shutdown(wait=True)
+            chk.count("two_handle_sequences")
+        finally:
+            for h in handles.values():
+                h.cache.executor.shutdown(wait=True)
+            shutil.rmtree(root, ignore_errors=True)
+    return None
+
+
 def table_damage_scenario(chk, rng, workdir):
     """a table file on disk is damaged (as after a disk fault): reading it raises; the accounting of the held entries
     and every other key must be unaffected, right after the failure and after further gets/sets"""
@@ -1365,6 +1410,9 @@ def run(tier, replay=None):
             bad_props.append(bp)
         if bc:
             bad_corrs.append(bc)
+        bp = check_two_handles(chk, rng, workdir)
+        if bp:
+            bad_props.append(bp)
         bp = table_damage_scenario(chk, rng, workdir)
         if bp:
             bad_props.append(bp)
